@@ -206,6 +206,7 @@ Definition fld_op (s : fspec) (acc : outcome (fstate * list bytes)) (op : sexp) 
                     end
         | None => Err bad
         end
+      else if bytes_eqb name (S' "note") then Ok (st, S' "ok" :: out)
       else if bytes_eqb name (S' "setbytes") then
         match as_hex arg with
         | Some d => match setbytes_f s st d with
@@ -293,6 +294,7 @@ Definition msg_op (S : mspec) (acc : outcome (mstate * list bytes)) (op : sexp) 
                     end
         | None => Err bad
         end
+      else if bytes_eqb name (S' "note") then Ok (m, S' "ok" :: out)
       else if bytes_eqb name (S' "unset") then
         match as_int arg with
         | Some id => Ok (m_unset S m id, S' "ok" :: out)
